@@ -77,9 +77,12 @@ func verifBridgeOp(br *Bridge, f []string) (out string) {
 			}
 			time.Sleep(5 * time.Microsecond)
 		}
-		if r.err != nil {
+		switch {
+		case r.err != nil:
 			out = "rerr " + r.err.Error()
-		} else {
+		case r.n > len(buf) || r.n < 0:
+			out = fmt.Sprintf("bad-n %d", r.n)
+		default:
 			out = "got " + vh.Hex(buf[:r.n])
 		}
 	case "reorder":
@@ -119,6 +122,9 @@ func verifBridgeGen(r *vh.Rng, o *vh.Out, id string) {
 	}
 	msg := func() string {
 		ctr++
+		if r.Chance(6) {
+			return "-" // an empty message is a message too
+		}
 		b := append([]byte{byte(ctr >> 8), byte(ctr)}, r.Bytes(r.Intn(7))...)
 		return vh.Hex(b)
 	}
